@@ -36,6 +36,7 @@ type dumpCache interface {
 	dump(w *bytes.Buffer) (int, error)
 	restore(r *bytes.Buffer) (int, error)
 	read(key []byte) (interface{}, error)
+	wdr() cache.WalkDumpRestorer
 	close()
 }
 
@@ -64,7 +65,8 @@ func (p plainDump) read(key []byte) (interface{}, error) {
 
 	return r.Val, r.Err
 }
-func (p plainDump) close() { p.be.Close() }
+func (p plainDump) close()                      { p.be.Close() }
+func (p plainDump) wdr() cache.WalkDumpRestorer { return p.be.Raw().(cache.WalkDumpRestorer) }
 
 type ofDump[V any] struct {
 	c    *cache.ShardedMapOf[V]
@@ -91,6 +93,7 @@ func (o ofDump[V]) dump(w *bytes.Buffer) (int, error)    { return o.c.Dump(w) }
 func (o ofDump[V]) restore(r *bytes.Buffer) (int, error) { return o.c.Restore(r) }
 func (o ofDump[V]) read(key []byte) (interface{}, error) { return o.c.Read(bg, key) }
 func (o ofDump[V]) close()                               { o.c.VerifClose() }
+func (o ofDump[V]) wdr() cache.WalkDumpRestorer           { return o.c.WalkDumpRestorer() }
 
 var dumpCfg = cache.Config{
 	TimeToLive: cache.UnlimitedTTL, ExpirationJitter: -1,
